@@ -784,8 +784,12 @@ def _render(n):
     small accessor function, compared literally by a theorem"""
     k = n.get("kind")
     inner = [c for c in n.get("inner", []) or [] if isinstance(c, dict)]
+    if k == "CStyleCastExpr" and n.get("castKind") not in ("NoOp", "ToVoid"):
+        return "(" + n.get("type", {}).get("qualType", "?") + ")" + _render(inner[0])
     if k in ("ImplicitCastExpr", "ParenExpr", "ConstantExpr", "CStyleCastExpr"):
         return _render(inner[0])
+    if k == "FloatingLiteral":
+        return str(n.get("value"))
     if k == "CompoundStmt":
         return "{" + " ".join(_render(c) for c in inner) + "}"
     if k == "ReturnStmt":
@@ -816,6 +820,59 @@ def _render(n):
         return ";"
     return "<" + str(k) + ">" + "".join(_render(c) for c in inner)
 
+
+def _is_log_or_assert(n):
+    txt = json.dumps(n)
+    return "aws_logger_get" in txt or "aws_fatal_assert" in txt
+
+
+def _render_fn(n):
+    """like _render, with the expansions of the logging / assertion macros collapsed to LOG; / ASSERT;"""
+    k = n.get("kind")
+    inner = [c for c in n.get("inner", []) or [] if isinstance(c, dict)]
+    if k in ("DoStmt", "IfStmt"):
+        txt = json.dumps(n)
+        if k == "DoStmt" and "aws_logger_get" in txt and "s_get_encoder" not in txt:
+            return "LOG;"
+        if "aws_fatal_assert" in txt and all(_callee(x) in (None, "aws_fatal_assert") for x in _walk(n)):
+            conds = [c for c in _walk(n) if c.get("kind") == "IfStmt"]
+            return "ASSERT(" + (_render(conds[0]["inner"][0]) if conds else "?") + ");"
+    if k == "CompoundStmt":
+        return "{" + " ".join(_render_fn(c) for c in inner) + "}"
+    if k == "IfStmt":
+        return "if(" + _render(inner[0]) + ")" + _render_fn(inner[1]) + ("else" + _render_fn(inner[2]) if len(inner) > 2 else "")
+    if k == "ForStmt":
+        parts = [c for c in n.get("inner", [])]
+        hdr = ";".join(_render(c) if isinstance(c, dict) and c else "" for c in parts[:-1])
+        return "for(" + hdr + ")" + _render_fn(parts[-1])
+    if k == "WhileStmt":
+        return "while(" + _render(inner[0]) + ")" + _render_fn(inner[1])
+    if k == "DoStmt":
+        return "do" + _render_fn(inner[0]) + "while(" + _render(inner[1]) + ");"
+    if k == "SwitchStmt":
+        return "switch(" + _render(inner[0]) + ")" + _render_fn(inner[-1])
+    if k == "CaseStmt":
+        return "case " + _render(inner[0]) + ":" + _render_fn(inner[-1])
+    if k == "DefaultStmt":
+        return "default:" + _render_fn(inner[-1])
+    if k == "BreakStmt":
+        return "break;"
+    if k == "LabelStmt":
+        return n.get("name", "?") + ":" + _render_fn(inner[0])
+    if k == "GotoStmt":
+        return "goto;"
+    if k in ("ReturnStmt", "DeclStmt", "NullStmt"):
+        return _render(n)
+    return _render(n) + ";"
+
+
+ENCODER_FNS = ["aws_cbor_encoder_write_uint", "aws_cbor_encoder_write_float", "aws_cbor_encoder_write_bytes", "aws_cbor_encoder_write_text",
+               "aws_cbor_encoder_write_bool", "s_cbor_encoder_write_type_only"]
+DECODER_FNS = ["s_cbor_decode_next_element", "aws_cbor_decoder_peek_type", "aws_cbor_decoder_consume_next_whole_data_item",
+               "aws_cbor_decoder_consume_next_single_element"]
+POP_FNS = [("unsigned_int_val", "AWS_CBOR_TYPE_UINT"), ("negative_int_val", "AWS_CBOR_TYPE_NEGINT"), ("float_val", "AWS_CBOR_TYPE_FLOAT"),
+           ("boolean_val", "AWS_CBOR_TYPE_BOOL"), ("text_val", "AWS_CBOR_TYPE_TEXT"), ("bytes_val", "AWS_CBOR_TYPE_BYTES"),
+           ("map_start", "AWS_CBOR_TYPE_MAP_START"), ("array_start", "AWS_CBOR_TYPE_ARRAY_START"), ("tag_val", "AWS_CBOR_TYPE_TAG")]
 
 ACCESSORS = ["aws_cbor_encoder_new", "aws_cbor_encoder_reset", "aws_cbor_encoder_get_encoded_data", "s_get_encoder_current_position",
              "s_get_encoder_remaining_len", "aws_cbor_decoder_new", "aws_cbor_decoder_get_remaining_length"]
@@ -909,11 +966,49 @@ def generate(repo, cfg_inc):
         if nm not in acc:
             raise GenError(f"{nm} not found in cbor.c")
         rows_acc.append((nm, _render(_body(acc[nm]))))
+    bbf = {}
+    for pre in ("aws_byte_buf_append", "aws_byte_buf_reserve", "aws_byte_buf_reset"):
+        bbf.update(cfun.dump_functions(f'#include "{os.path.join(repo, "source", "byte_buf.c")}"\n', pre, inc))
+    rows_bb = []
+    for nm in ("aws_byte_buf_append", "aws_byte_buf_reserve", "aws_byte_buf_reset"):
+        if nm not in bbf:
+            raise GenError(f"{nm} not found in byte_buf.c")
+        rows_bb.append((nm, _render_fn(_body(bbf[nm]))))
+    out.append("/-- bodies of the byte_buf.c functions the encoder relies on (pre/post-condition macros expand to nothing here) -/")
+    out.append("def byteBufBodies : List (String × String) := [\n" + ",\n".join(f"  ({_s(a)}, {_s(b)})" for a, b in rows_bb) + "]\n")
     rs_text, rel_body = reserve_smart_function(repo, inc)
     rows_acc.append(("aws_byte_buf_reserve_smart_relative", rel_body))
     out.append(rs_text)
     out.append("/-- bodies of the bookkeeping functions of cbor.c (casts / parentheses dropped) -/")
     out.append("def accessorBodies : List (String × String) := [\n" + ",\n".join(f"  ({_s(a)}, {_s(b)})" for a, b in rows_acc) + "]\n")
+    # the decoder's state machine, as text: the functions Model/Cbor.lean transcribes by hand
+    dec = {}
+    for pre in ("aws_cbor_decoder_", "s_cbor_decode_next_element"):
+        dec.update(cfun.dump_functions(f'#include "{src}"\n', pre, inc))
+    rows_dec = []
+    for nm in DECODER_FNS:
+        if nm not in dec:
+            raise GenError(f"{nm} not found in cbor.c")
+        rows_dec.append((nm, _render_fn(_body(dec[nm]))))
+    encf = dict(wf)
+    rows_enc = []
+    for nm in ENCODER_FNS:
+        if nm not in encf:
+            raise GenError(f"{nm} not found in cbor.c")
+        rows_enc.append((nm, _render_fn(_body(encf[nm]))))
+    out.append("/-- bodies of the encoder functions of cbor.c that carry the ENCODE_THROUGH_LIBCBOR expansion, the narrowing and the")
+    out.append("type-only switch (assertion macros collapsed) -/")
+    out.append("def encoderBodies : List (String × String) := [\n" + ",\n".join(f"  ({_s(a)}, {_s(b)})" for a, b in rows_enc) + "]\n")
+    out.append("/-- bodies of the decoder functions of cbor.c that Model/Cbor.lean transcribes (logging / assertion macros collapsed) -/")
+    out.append("def decoderBodies : List (String × String) := [\n" + ",\n".join(f"  ({_s(a)}, {_s(b)})" for a, b in rows_dec) + "]\n")
+    pops = []
+    for field, ty in POP_FNS:
+        nm = "aws_cbor_decoder_pop_next_" + field
+        if nm not in dec:
+            raise GenError(f"{nm} not found in cbor.c")
+        pops.append((field, ty, _render_fn(_body(dec[nm]))))
+    out.append("/-- the nine expansions of GET_NEXT_ITEM: (union field, expected type, body) -/")
+    out.append("def popBodies : List (String × String × String) := [\n" + ",\n".join(f"  ({_s(a)}, {_s(b)}, {_s(c)})" for a, b, c in pops) + "]\n")
     # the callback table handed to libcbor
     cbf = cfun.dump_functions(f'#include "{src}"\n', "s_", inc)
     cbf = {k: v for k, v in cbf.items() if k.endswith("_callback")}
